@@ -109,7 +109,7 @@ func TestCheck(t *testing.T) {
 		r.Finish()
 		return
 	}
-	c := &strace.Campaign{R: r, Stream: "c07", Judge: judge(r), Roots: r.N(120, 900), Sweeps: r.N(110, 600), SweepK: r.N(400, 4000)}
+	c := &strace.Campaign{R: r, Stream: "c07", Judge: judge(r), Roots: r.N(120, 900), Sweeps: r.N(110, 600), SweepK: r.N(400, 4000), Deep: r.N(32, 320), DeepNodes: r.N(12_000_000, 30_000_000)}
 	c.Go()
 	// games: fresh / warmed / heavily colliding 32000-byte table (1000 buckets)
 	corpus := gen.Corpus()
@@ -164,7 +164,7 @@ func TestCheck(t *testing.T) {
 		r.Current(wk, w)
 		uciCase(r, &root, w)
 	})
-	r.Finish("searches_on_poisoned_table", "engines_warmed_up_on_another_root", "abort_sweep_sparse_deep_points", "traces_checked", "pv_lines", "pv_moves", "abort_lines", "empty_pv_lines", "ponder_moves", "game_searches_on_warm_tables", "uci_traces_checked", "uci_ponder_moves")
+	r.Finish("deep_or_wide_searches", "searches_on_poisoned_table", "engines_warmed_up_on_another_root", "abort_sweep_sparse_deep_points", "traces_checked", "pv_lines", "pv_moves", "abort_lines", "empty_pv_lines", "ponder_moves", "game_searches_on_warm_tables", "uci_traces_checked", "uci_ponder_moves")
 }
 
 func uciCase(r *ev.Run, root *strace.Root, w uciWitness) {
